@@ -2,6 +2,7 @@ import CGV.Props.C10
 import CGV.Props.C10Multi
 import CGV.Props.C10Reach
 import CGV.Props.C10Quot
+import CGV.Props.C10Members
 #print axioms CGV.C10.C10_one_fewer
 #print axioms CGV.C10.C10_others_kept
 #print axioms CGV.C10.C10_removed_gone
@@ -20,3 +21,6 @@ import CGV.Props.C10Quot
 #print axioms CGV.C10.qinv_step
 #print axioms CGV.C10.C10_quotient_bonds
 #print axioms CGV.C10.C10_rep_alive
+#print axioms CGV.C10.atom?_of_mem
+#print axioms CGV.C10.minv_step
+#print axioms CGV.C10.C10_class_membership
